@@ -302,6 +302,12 @@ func (g *specGen) parameter(loc string, name string) J {
 	if loc == "path" || r.Chance(40) {
 		p["required"] = true
 	}
+	if loc != "path" && r.Chance(12) {
+		// a parameter serialised as JSON (content instead of schema)
+		p["content"] = J{"application/json": J{"schema": J{"type": "object", "properties": J{"a": J{"type": "string"}, "n": J{"type": "integer"}}}}}
+		g.count("param:" + loc + ":json-content")
+		return p
+	}
 	switch k := r.Intn(10); {
 	case k < 6:
 		p["schema"] = copyJ(primSchemas[r.Intn(11)])
@@ -450,6 +456,16 @@ func (g *specGen) Generate() J {
 					name = strings.ReplaceAll(name, " ", "-")
 				}
 				params = append(params, g.parameter(loc, name))
+			}
+			if r.Chance(12) {
+				// several JSON-content parameters in one location, required and optional: their generated locals must not collide
+				loc := []string{"header", "query", "cookie"}[r.Intn(3)]
+				for k, nm := range []string{"X-Json-A", "X-Json-B", "X-Json-C"} {
+					jp := J{"name": nm, "in": loc, "required": k < 2 || r.Bool(),
+						"content": J{"application/json": J{"schema": J{"type": "object", "properties": J{"a": J{"type": "string"}}}}}}
+					params = append(params, jp)
+				}
+				g.count("op:several-json-params:" + loc)
 			}
 			if rp, ok := comps["parameters"]; ok && r.Chance(30) && !pnames["limit"] {
 				pnames["limit"] = true
